@@ -63,9 +63,15 @@ def mknum(v, sort, txt=None):
 def qsym(name):
     """Quote a symbol if it needs it (generator-side names only)."""
     from .sexpr import is_simple_symbol
-    if is_simple_symbol(name):
+    if is_simple_symbol(name) and name not in _RESERVED and not name[0] == "-":
         return name
     return "|" + name + "|"
+
+
+_RESERVED = {"let", "par", "as", "forall", "exists", "assert", "push", "pop", "!", "_", "define-fun", "declare-fun", "check-sat",
+             "set-logic", "set-option", "exit", "NUMERAL", "DECIMAL", "STRING", "declare-sort", "define-sort", "declare-const",
+             "get-model", "get-value", "echo", "get-info", "set-info", "get-proof", "get-unsat-core", "get-assignment",
+             "get-interpolants", "simplify", "get-option", "theory"}
 
 
 def to_smt(t, mode="osmt", strip_names=False, rename=None):
